@@ -117,7 +117,8 @@ class KSfunction(object):
         dKS_dg = dKS_dsum * dsum_dg
 
         dsum_drho = np.sum(g_diff * exponents, axis=-1)[:, np.newaxis]
-        dKS_drho = dKS_dsum * dsum_drho
+        # KS = g_max + log(summation) / rho depends on rho explicitly and through the summation.
+        dKS_drho = dKS_dsum * dsum_drho - np.log(summation) / rho ** 2
 
         return dKS_dg, dKS_drho
 
